@@ -126,4 +126,11 @@ CHECKS = {
         "right level.",
    note="Trusted base: xarray label selection; what a label denotes absolutely is judged by C04/C05/C07. Component-numbered outputs are not labels; clp-derived outputs of rank-deficient matrices are skipped.",
    technique="runtime monitoring: metamorphic (permutation) oracle over results of real optimisations + composition oracle on MatrixProvider; recorders"),
+ "C14": dict(category="exploration",
+   text="Nine builtin model families with generating parameters drawn from the physical range are simulated (clp-driven with permuted clp labels, full-model) and "
+        "fitted by the real optimize(): the recorded objective at the truth must vanish to 1e-10 |data|, clps come back by label, the optimiser started at the truth "
+        "stays within 1e-6, perturbed starts (10-20 %) return within 200 evaluations judged by the recovery RATE over identifiable families and up to rate "
+        "permutations, simulated data equal dataset matrix @ clp by label, noise seeds are reproducible. Convergence is restated as bounded progress; no liveness claim.",
+   note="Trusted base: MatrixProvider.calculate_dataset_matrix (judged by C04-C07). A single local minimum is not a violation; fewer than a quarter of a family's starts recovering is.",
+   technique="runtime monitoring: simulate-then-fit round-trip oracle with recorded objective evaluations; statistical recovery-rate monitor"),
 }
